@@ -203,7 +203,7 @@ func (vc *VC) evalSpec(x SExpr, env *Env) (tv TV) {
 			return vc.evalBool(x.Body, e2)
 		}()
 		if x.Forall {
-			return TV{T: Forall(vars, Implies(And(ranges...), body)), Ty: goTy(types.Typ[types.Bool])}
+			return TV{T: Forall(vars, withPatterns(Implies(And(ranges...), body), vars)), Ty: goTy(types.Typ[types.Bool])}
 		}
 		return TV{T: Exists(vars, And(append(ranges, body)...)), Ty: goTy(types.Typ[types.Bool])}
 	case *SUnary:
@@ -248,7 +248,7 @@ func (vc *VC) evalSpec(x SExpr, env *Env) (tv TV) {
 		switch u := base.Ty.Go.Underlying().(type) {
 		case *types.Slice:
 			i := vc.materialize(vc.evalSpec(x.I, env), intTy)
-			ref := vc.elem(vc.sliceArr(base.T), vc.add(vc.sliceOff(base.T), vc.toIdx(i)))
+			ref := vc.elemAt(vc.sliceArr(base.T), vc.sliceOff(base.T), vc.toIdx(i))
 			return TV{T: vc.load(env.state, ref, u.Elem()), Ty: goTy(u.Elem())}
 		case *types.Array:
 			i := vc.materialize(vc.evalSpec(x.I, env), intTy)
@@ -624,6 +624,19 @@ func (vc *VC) evalSelect(x *SSelect, env *Env) TV {
 			}
 		}
 	}
+	// a field of something addressable is read directly from its cell (not by loading the whole
+	// enclosing struct and projecting)
+	if _, isIdx := x.X.(*SIndex); isIdx {
+		if ref, t, ok := vc.tryLvalue(x, env); ok {
+			return TV{T: vc.load(env.state, ref, t), Ty: goTy(t)}
+		}
+	} else if inner, isSel := x.X.(*SSelect); isSel {
+		if _, isIdx2 := inner.X.(*SIndex); isIdx2 {
+			if ref, t, ok := vc.tryLvalue(x, env); ok {
+				return TV{T: vc.load(env.state, ref, t), Ty: goTy(t)}
+			}
+		}
+	}
 	base := vc.evalSpec(x.X, env)
 	if base.Ty == nil || base.Ty.Go == nil {
 		specFail("cannot select .%s", x.Sel)
@@ -776,7 +789,7 @@ func (vc *VC) evalCall(x *SCall, env *Env) TV {
 		// elemaddr(s, i): the Ref of element i of slice s
 		s := vc.evalSpec(x.Args[0], env)
 		i := vc.materialize(vc.evalSpec(x.Args[1], env), intTy)
-		return TV{T: vc.elem(vc.sliceArr(s.T), vc.add(vc.sliceOff(s.T), vc.toIdx(i))), Ty: goTy(types.Typ[types.UnsafePointer])}
+		return TV{T: vc.elemAt(vc.sliceArr(s.T), vc.sliceOff(s.T), vc.toIdx(i)), Ty: goTy(types.Typ[types.UnsafePointer])}
 	case "addrof":
 		ref, t := vc.lvalue(x.Args[0], env)
 		return TV{T: ref, Ty: goTy(types.NewPointer(t))}
